@@ -340,7 +340,8 @@ def run_case(case):
             l64 = np.reshape(prior.logpdf(X64 if dim > 1 else X64[:, 0]), -1)
             g32 = [np.reshape(prior.gradient_logpdf(r_ if dim > 1 else r_[0]), -1) for r_ in X32]
             g64 = [np.reshape(prior.gradient_logpdf(r_ if dim > 1 else r_[0]), -1) for r_ in X64]
-    if not np.allclose(l32, l64, rtol=1e-6, atol=1e-6, equal_nan=True):
+    # (a float32 argument may legitimately be evaluated in float32 arithmetic: a few 1e-6 relative, more next to a pole)
+    if not np.allclose(l32, l64, rtol=1e-3, atol=1e-3, equal_nan=True):
         raise Violation('C08:depends-on-point-dtype', 'logpdf of %r given as float32 is %r, as float64 %r; %s' % (X64.tolist(), l32.tolist(), l64.tolist(), ctx))
     for r in range(len(X32)):
         if np.all(np.isfinite(g64[r])) and not np.allclose(g32[r], g64[r], rtol=1e-3, atol=1e-4 * (1 + np.abs(g64[r]).max())):
